@@ -16,7 +16,10 @@ RULE = ("Hypothesis constructs a script model (all constructs incl. arrays, loop
         "spaces; final newline present or absent. Oracle (metamorphic): canonical content of loads(variant) equals that of "
         "loads(canonical rendering) bit for bit; the reference lexer must give both texts the same token sequence apart from NEWLINE "
         "(self-check of the transformer). Non-trivial = >=3 different edit kinds and the script has an array or a loop. "
-        "Distinct = SHA-1 of the variant text.")
+        "Distinct = SHA-1 of the variant text."
+        " A third of the ASCII variants goes through blackbird.load (a file whose earlier version was loaded from the"
+        " same path just before); strings contain characters that are special outside strings (#, braces, keywords,"
+        " four spaces).")
 ASSUMPTIONS = ["the canonical rendering loads (otherwise the case is discarded and counted)"]
 BUDGET = {"quick": (1500, 4), "thorough": (40000, 16)}
 
